@@ -14,7 +14,7 @@ ASSUMPTIONS = [
     "String parts and FComponents directly inside an FString are positioned by a different rule (from the end of the previous part); "
     "they are checked for containment in the f-string and start order only",
     "models that have no text of their own (the head symbol that sugar introduces, and the '.', 'None' and part symbols that a dotted "
-    "identifier expands to) inherit the enclosing form's region; they are checked for containment only; for #^ TYPE TARGET, which is defined as (annotate TARGET TYPE), the order clause is not applied to TARGET/TYPE",
+    "identifier expands to) inherit the enclosing form's region; they are checked for containment only, unless they report a narrower region, which must then read back to them; for #^ TYPE TARGET, which is defined as (annotate TARGET TYPE), the order clause is not applied to TARGET/TYPE",
     "lines are separated by LF only (a lone CR does not start a new line), as the reader counts",
 ]
 
@@ -69,6 +69,17 @@ def check_case(case):
             if len(back) != 1 or T.model_diff(back[0], actual):
                 return ("slice-reads-differently", dict(text=text, model=hy.repr(actual), slice=sl,
                                                         reread=[hy.repr(b) for b in back][:3]))
+        if synthesized and not in_fstring and parent_span is not None and (s, e) != tuple(parent_span) and not isinstance(actual, M.Sequence):
+            # a model without text of its own normally inherits the enclosing form's region; when it reports a narrower
+            # region, it claims that text, so the text must read back to it (e.g. per-part spans of a dotted identifier)
+            sl = text[s:e + 1]
+            try:
+                back = list(hy.read_many(sl))
+            except Exception as ex:  # noqa
+                back = None
+            if back is None or len(back) != 1 or T.model_diff(back[0], actual):
+                return ("narrowed-region-of-synthesized-model-reads-differently",
+                        dict(text=text, model=hy.repr(actual), slice=sl, region=region(actual)))
         if isinstance(actual, M.Sequence):
             is_f = isinstance(actual, (M.FString, M.FComponent))
             sugar_head = (isinstance(actual, M.Expression) and len(actual) > 0 and isinstance(actual[0], M.Symbol)
